@@ -8,7 +8,8 @@ From Grex Require Import Base.Str Model.Config Model.Cluster Model.Dfa Model.Exp
 From Grex Require Import Engine.Syntax Engine.Parse Engine.Sem.
 From Grex Require Import Proofs.Lang Proofs.Spec Proofs.NormaliseDet Proofs.ClustersSpec.
 From Grex Require Import Proofs.PrintParseNum Proofs.PrintParseDefs.
-From Grex Require Import Proofs.ColourStripBase Proofs.SelfCheckProps Proofs.SelfCheckTotal.
+From Grex Require Import Proofs.ColourStripBase Proofs.SelfCheckProps Proofs.SelfCheckTotal Proofs.SelfCheckVerbose.
+From Grex Require Import Proofs.PrintParseXTok Proofs.PrintParseXSim Proofs.PipelinePrintable.
 From Grex Require Import Proofs.PropsGlue Proofs.PropsGlueE2E Proofs.EngineDen Proofs.EndToEndVerbose Proofs.EndToEndMerge.
 
 Section Closed.
@@ -73,8 +74,68 @@ Section Closed.
       as (fl & r & H1 & H2 & H3 & H4 & H5).
     exists s, fl, r. repeat split; try assumption; apply H4; assumption.
   Qed.
+
+  (* the same in VERBOSE mode: the closed build returns "(?x)..." which parses under the x flag and
+     matches every test case.  (The self-check's verbose re-compile cannot fail: SelfCheckVerbose.) *)
+  Theorem closed_build_total_sound_verbose : forall c db ws,
+    let tcs := normalise c db ws in
+    let cls := grapheme_clusters c db tcs in
+    f_ci c = false ->
+    ws <> [] -> Forall (Forall scalar) ws -> oracle_ok db tcs ->
+    printable c -> f_verbose c = true -> ws_x is_ws ->
+    (forall e1, cand1 c cls = Some e1 -> no_vf (cand_nv c e1)) ->
+    exists s fl r, build_closed isd is_ws c db ws = Some s
+      /\ parse is_ws s = Some (fl, r) /\ fl_i fl = false /\ fl_x fl = true
+      /\ forall t, In t ws -> (t <> [] \/ K4 tcs = false) -> L_rast lit_cs cls_engine r t.
+  Proof.
+    intros c db ws tcs cls Hci Hne Hsc Hok Hp Hv Hx Hn.
+    assert (Hsc' : Forall (Forall scalar) tcs).
+    { unfold tcs. apply normalise_scalar_cs; assumption. }
+    assert (Hwp : Forall (Forall (wf_pg false)) cls).
+    { apply grapheme_clusters_wf_pg; [exact Hsc'|exact Hok]. }
+    assert (Hne' : cls <> []).
+    { intros E. apply (normalise_nonempty c db ws Hne).
+      apply length_zero_iff_nil. rewrite <- (grapheme_clusters_length c db (normalise c db ws)).
+      fold tcs. fold cls. rewrite E. reflexivity. }
+    destruct (build_closed_total isd is_ws Hd Hws c db ws Hwp Hne' (proj2 Hp) Hn) as (s & Hs).
+    destruct (build_closed_build isd is_ws c db ws s Hs) as (sc & Hb & _).
+    destruct (build_sound_cs_any_v isd is_ws c db sc ws s Hci Hne Hsc Hok Hp Hv Hx Hb) as (fl & r & H1 & H2 & H3 & H4).
+    exists s, fl, r. repeat split; assumption.
+  Qed.
+
+  Theorem closed_build_total_exact_verbose : forall (cls0 : cp -> cp -> Prop) c db ws,
+    let tcs := normalise c db ws in
+    let cls := grapheme_clusters c db tcs in
+    f_digit c = false /\ f_non_digit c = false /\ f_space c = false /\
+    f_non_space c = false /\ f_word c = false /\ f_non_word c = false ->
+    f_ci c = false -> f_rep c = false ->
+    ws <> [] -> Forall (Forall scalar) ws -> oracle_ok db tcs ->
+    printable c -> f_verbose c = true -> ws_x is_ws ->
+    (forall e1, cand1 c cls = Some e1 -> no_vf (cand_nv c e1)) ->
+    exists s fl r, build_closed isd is_ws c db ws = Some s
+      /\ parse is_ws s = Some (fl, r) /\ fl_i fl = false /\ fl_x fl = true
+      /\ (forall u, Forall scalar u -> (u <> [] \/ K4 tcs = false) -> (L_rast lit_cs cls0 r u <-> In u ws))
+      /\ (L_rast lit_cs cls0 r [] -> In [] ws).
+  Proof.
+    intros cls0 c db ws tcs cls Hcl Hci Hrep Hne Hsc Hok Hp Hv Hx Hn.
+    assert (Hsc' : Forall (Forall scalar) tcs).
+    { unfold tcs. apply normalise_scalar_cs; assumption. }
+    assert (Hwp : Forall (Forall (wf_pg false)) cls).
+    { apply grapheme_clusters_wf_pg; [exact Hsc'|exact Hok]. }
+    assert (Hne' : cls <> []).
+    { intros E. apply (normalise_nonempty c db ws Hne).
+      apply length_zero_iff_nil. rewrite <- (grapheme_clusters_length c db (normalise c db ws)).
+      fold tcs. fold cls. rewrite E. reflexivity. }
+    destruct (build_closed_total isd is_ws Hd Hws c db ws Hwp Hne' (proj2 Hp) Hn) as (s & Hs).
+    destruct (build_closed_build isd is_ws c db ws s Hs) as (sc & Hb & _).
+    destruct (build_exact_default_v cls0 isd is_ws c db sc ws s Hcl Hci Hrep Hne Hsc Hok Hp Hv Hx Hb)
+      as (fl & r & H1 & H2 & H3 & H4 & H5).
+    exists s, fl, r. repeat split; try assumption; apply H4; assumption.
+  Qed.
 End Closed.
 
 Print Assumptions closed_lift.
 Print Assumptions closed_build_total_sound.
 Print Assumptions closed_build_total_exact.
+Print Assumptions closed_build_total_sound_verbose.
+Print Assumptions closed_build_total_exact_verbose.
